@@ -61,6 +61,7 @@ func c14Run(sc *C14Scenario) *c14Outcome {
 	// The history.
 	mc := newMachine()
 	mc.illFormed = sc.Prog.IllFormed
+	mc.literal = sc.Prog.Literal
 	var history []string
 	var obsBad, obsPanic string
 	builder := func() {
@@ -140,7 +141,7 @@ func c14Run(sc *C14Scenario) *c14Outcome {
 func c14GenScenario(r *rng) *C14Scenario {
 	sc := &C14Scenario{}
 	steps := 6 + r.intn(50)
-	sc.Prog = genProgram(r, genParams{Steps: steps, Metadata: r.chance(1, 3), BlockAddr: r.chance(1, 3), IllFormed: r.chance(1, 2)})
+	sc.Prog = genProgram(r, genParams{Steps: steps, Metadata: r.chance(1, 3), BlockAddr: r.chance(1, 3), IllFormed: r.chance(1, 2), Literal: r.chance(1, 5)})
 	nobs := 1 + r.intn(12)
 	if r.chance(1, 8) {
 		nobs = 20 + r.intn(20)
